@@ -984,7 +984,9 @@ class C17(CaseSpec):
                 c.steps.append("explore")
         allsc = corpus + scen
         limit = 0 if tier == "thorough" else 60
-        cases, counts = cn.explore(allsc, workdir, limit)
+        cases, counts, class_mismatch = cn.explore(allsc, workdir, limit)
+        if class_mismatch:
+            log("[%s] class predicate: python and Coq disagree on %d scenarios, e.g. %s" % (prop, len(class_mismatch), class_mismatch[0]))
         results, fls = vlib.run_all(cases, workdir, "c", flavours=self.flavours, hang_secs=self.hang_secs, nshards=32)
         dis = vlib.compare(cases, results, fls)
         log("[%s] %d scenarios, %d schedules replayed on %s, %d disagreements, %.1fs" % (prop, len(allsc), len(cases), fls, len(dis), time.time() - t1))
@@ -1049,6 +1051,7 @@ class C17(CaseSpec):
                    scenarios=len(allsc), scenarios_in_known_classes=nk, scenarios_outside_known_classes=len(allsc) - nk,
                    schedules_total=sum(counts.values()), schedules_replayed=len(cases), traces_validated_against_impl=len(cases) * len(fls) - len(dis),
                    disagreements=len(dis), known_classes_reproduced=sorted(known_hit), free_running_stress=stress,
+                   class_predicate="ConcClass.known_class (Coq, through the extracted model); python cross-check mismatches: %d" % len(class_mismatch),
                    exhaustive=(tier == "thorough"), exhaustive_space="2 threads x 1 call over 2 nodes: every pair of calls x every initial edge set with <=2 edges, all schedules" if tier == "thorough" else "")
         return cov
 
